@@ -47,9 +47,29 @@ type DataOpts struct {
 	Keys      []string // extra keys
 	ASCIIKeys bool
 	NoEmptyKey bool
+	NoMultiLine bool
+}
+
+var linePool = []string{"", "", " ", "\t", "a", " a", "a ", "\u00a0", "#c", "- x", "k: v", "  ind", "\t\t", "...", "---", "|", ">", "b:", "'", "\"", "x\\"}
+
+// multiLine builds a string of 2-5 lines from linePool (blank, tab-only and padded lines next to content).
+func multiLine(r *rand.Rand) string {
+	n := 2 + r.IntN(4)
+	lines := make([]string, n)
+	for i := range lines {
+		lines[i] = linePool[r.IntN(len(linePool))]
+	}
+	s := strings.Join(lines, "\n")
+	if r.IntN(3) == 0 {
+		s += "\n"
+	}
+	return s
 }
 
 func (o DataOpts) str(r *rand.Rand) string {
+	if !o.NoMultiLine && r.IntN(8) == 0 {
+		return multiLine(r)
+	}
 	switch r.IntN(6) {
 	case 0:
 		return Pool[r.IntN(len(Pool))] + Pool[r.IntN(len(Pool))]
